@@ -10,6 +10,7 @@ import (
 	"github.com/decred/dcrd/dcrec/secp256k1/v4"
 	cbornode "github.com/ipfs/go-ipld-cbor"
 	"github.com/libp2p/go-libp2p/core/crypto"
+	multibase "github.com/multiformats/go-multibase"
 	mh "github.com/multiformats/go-multihash"
 	"os"
 	"sort"
@@ -365,6 +366,30 @@ func (a *authEnv) forge(ctx context.Context, class string, base ipfslog.Entry) (
 		// properly signed by the non-writer, under a log id that is not this database's
 		e, err := mkEntry(ctx, a.x, a.x.DB.Identity(), a.addr+"-shadow", payload, next, t)
 		return e, key, false, err
+	case "nonwriter-respelled-log", "foreign-key-sig-respelled":
+		// the same two forgeries under another spelling of the database's address (root CID in base58btc): the log
+		// compares ids as strings and leaves entries of "another log" out of what it verifies
+		respelled := a.addr
+		if pa, err := address.Parse(a.addr); err == nil {
+			if z, err := pa.GetRoot().StringOfBase(multibase.Base58BTC); err == nil {
+				respelled = "/orbitdb/" + z + "/" + pa.GetPath()
+			}
+		}
+		if class == "nonwriter-respelled-log" {
+			e, err := mkEntry(ctx, a.x, a.x.DB.Identity(), respelled, payload, next, t)
+			return e, key, false, err
+		}
+		fid, err := forgedIdentity(ctx, a.x, w1id.ID, "orbitdb")
+		if err != nil {
+			return nil, key, false, err
+		}
+		e, err := mkEntry(ctx, a.x, fid, respelled, payload, next, t)
+		if err != nil {
+			return nil, key, false, err
+		}
+		e.Identity = w1id.Filtered()
+		e.Key = w1id.PublicKey
+		return e, key, false, rehash(ctx, a.x, e)
 	case "copied-id", "foreign-type":
 		typ := "orbitdb"
 		if class == "foreign-type" {
@@ -657,6 +682,12 @@ var tamperFields = []string{"payload", "clock.time", "clock.id", "next", "refs",
 	"key-recoded",
 	// the genuine entry in another encoding (one more map key, which decoders ignore): another block, another address
 	"reencoded",
+	// ... and in an encoding the decoder does accept for a linked block: the hexadecimal signature in upper case (the
+	// encoder writes lower case, the decoder reads both): same fields once decoded, another block, another address
+	"reencoded-hexcase",
+	// the genuine entry naming its database under another spelling of the address (root CID in base58btc): the
+	// signature covers the id, so it no longer verifies, and the log compares ids as strings
+	"id-respelled",
 	// a block that is not an entry at all in the places the decoder dereferences: the genuine entry without its clock,
 	// and with an identity that carries no signatures (reachable through a link only: Sync refuses such heads)
 	"linked-no-clock", "linked-no-signatures"}
@@ -702,6 +733,12 @@ func (a *authEnv) mutate(e *entry.Entry, field string, other cid.Cid, otherAddr 
 		m.Identity.Type = "foreign"
 	case "id":
 		m.LogID = otherAddr
+	case "id-respelled":
+		if pa, err := address.Parse(a.addr); err == nil {
+			if z, err := pa.GetRoot().StringOfBase(multibase.Base58BTC); err == nil {
+				m.LogID = "/orbitdb/" + z + "/" + pa.GetPath()
+			}
+		}
 	case "hash":
 		m.Hash = other
 	case "key-recoded":
@@ -827,7 +864,7 @@ func runTamper(in *AuthInput, res *Result) {
 						m.Hash = nd.Cid()
 						mark("%s: a head of an authorised writer links to block %s, which is the entry %s without %s", bid, nd.Cid(), e2.GetHash(), strings.TrimPrefix(field, "linked-no-"))
 					}
-					if field == "reencoded" {
+					if field == "reencoded" || field == "reencoded-hexcase" {
 						if pos == "head-rehashed" {
 							return
 						}
@@ -841,7 +878,14 @@ func runTamper(in *AuthInput, res *Result) {
 							res.Inconclusive = append(res.Inconclusive, bid+": decode: "+err.Error())
 							return
 						}
-						fields["zz"] = 1
+						if field == "reencoded" {
+							fields["zz"] = 1
+						} else if sig, ok := fields["sig"].(string); ok && strings.ToUpper(sig) != sig {
+							fields["sig"] = strings.ToUpper(sig)
+						} else {
+							res.Inconclusive = append(res.Inconclusive, bid+": the block has no hexadecimal signature to spell differently")
+							return
+						}
 						nd, err := cbornode.WrapObject(fields, mh.SHA2_256, -1)
 						if err != nil {
 							res.Inconclusive = append(res.Inconclusive, bid+": encode: "+err.Error())
@@ -853,7 +897,7 @@ func runTamper(in *AuthInput, res *Result) {
 						m = e2.Copy().(*entry.Entry)
 						m.Hash = nd.Cid()
 					}
-					if pos != "head" && field != "hash-alias" && field != "reencoded" && !strings.HasPrefix(field, "linked-no-") {
+					if pos != "head" && field != "hash-alias" && field != "reencoded" && field != "reencoded-hexcase" && !strings.HasPrefix(field, "linked-no-") {
 						if err := rehash(ctx, a.x, m); err != nil {
 							// cannot even be encoded: nothing to deliver
 							res.Stats["unencodable"]++
@@ -931,6 +975,9 @@ func runTamper(in *AuthInput, res *Result) {
 					}
 					cls := fmt.Sprintf("hashok=%v intact=%v samedb=%v", hashok, intact, samedb)
 					res.Stats["class "+cls]++
+					if os.Getenv("VH_DEBUG") != "" {
+						res.note("%s: %s mustReject=%v merged=%v unchanged=%v", bid, cls, mustReject, merged, unchanged)
+					}
 					if mustReject && merged && !unchanged {
 						viol("tampered-merged", fmt.Sprintf("mutant of field %s delivered as %s (%s) was merged into the replica's log", field, pos, cls))
 					}
